@@ -103,6 +103,7 @@ fn main() {
     "verifier_dispatch" => verifiers::dispatch(&cex),
     "did_cursor" => did::cursor(&cex),
     "did_segment" => did::segment(&cex),
+    "did_validator" => did::validator(&cex),
     "malformed_inputs" => malformed::malformed(&cex),
     "credential_validation" => cred::credential_validation(&cex),
     "presentation_validation" => cred::presentation_validation(&cex),
